@@ -11,3 +11,5 @@ import BU.Properties.C07
 #print axioms C07.keypath_sig_verifies
 #print axioms C07.scriptpath_sig_verifies
 #print axioms C07.sig_length
+#print axioms C07.keypath_key_matches_unconditional
+#print axioms C07.keypath_sig_verifies_unconditional
